@@ -716,6 +716,14 @@ def scenario_external(ch, tr, st):
                 elif ch.flip(1, 2, "half_this_event"):
                     vals = vals + 0.5 if cols == 1 else vals + np.array([0.5, -0.5])
                     given = vals.copy()
+            if ch.flip(1, 4, "maxmin_supplied_twice"):
+                # the category is supplied twice: what was given first (other values, with
+                # abscissae) is replaced as a whole by the second call
+                junk = np.sort(np.array([[float(ch.draw(11, "val0") - 5) for _ in range(cols)] for _ in range(rows)]), axis=1)[:, ::-1]
+                jx = np.array([[float(7 + k + 100 * r) for k in range(cols)] for r in range(rows)])
+                with _Sut("DR_Results.add_maxmin (first supply)"):
+                    res.add_maxmin(cat, junk.copy(), f"E{e}old", None, jx, domain="time")
+                st.fault("maxmin_supplied_twice")
             with _Sut("DR_Results.add_maxmin"):
                 res.add_maxmin(cat, given, maxcase, mincase, given_x, domain="time" if xs is not None else None)
             low_max = [_lbl(maxcase, r) for r in range(rows)]
@@ -843,6 +851,14 @@ def draw_config(ch, rng, nmodes, cfgname, domain_hint, allow_srs):
             # possibly shifted (same length as another category's, different values)
             cs.frq_scale = [1.0, 1.3, 0.8][ch.weighted([3, 2, 1], "srsfrq_scale")]
         cats.append(cs)
+    # the documented generic form: the SAME recovery string ("Vars[se]['A'] @ sol.a") for several
+    # categories that differ only in the superelement id `se` their matrices are filed under
+    if ch.flip(1, 3, "generic_strings_per_se"):
+        for cs, se in zip(cats, [0, 100, 500, 700]):
+            cs.se = se
+            cs.mprefix = ""
+            if not cs.view:
+                cs.expr = DRFUNCS[cs.kind][0].format(c="")
     # DR_Event.add: the categories arrive in one or two DR_Def groups, each group
     # optionally with an event-level uf_reds override (replace / multiply / callable)
     ngroups = 2 if (ncat >= 2 and ch.flip(1, 3, "two_drdefs")) else 1
@@ -901,10 +917,14 @@ def _build_drdef(cla, cats, cfgname, srsfrq):
     drdefs = cla.DR_Def({"se": 0})
     for cs in cats:
         kw = dict(name=cs.name, labels=list(cs.labels), drfunc=cs.expr, uf_reds=cs.uf_def, desc=f"{cs.name} of {cfgname}")
-        drms = {cs.name + k: v for k, v in cs.V.items()}
-        # data recovery matrices: alternately through drms and nondrms (equivalent for se 0)
+        se = getattr(cs, "se", 0)
+        if se:
+            kw["se"] = se
+        drms = {getattr(cs, "mprefix", cs.name) + k: v for k, v in cs.V.items()}
+        # data recovery matrices: alternately through drms and nondrms (equivalent for se 0;
+        # for another superelement only nondrms, which need no ULVS matrix)
         if drms:
-            kw["drms" if cs.kind % 2 == 0 else "nondrms"] = drms
+            kw["drms" if (cs.kind % 2 == 0 and not se) else "nondrms"] = drms
         if cs.histpv is not None:
             kw["histpv"] = cs.histpv
         if cs.srspv is not None:
@@ -2032,5 +2052,5 @@ ASSUMPTIONS = [
 EXPECTED_FAULTS = [
     "psd_domain", "clock_jump_backwards", "clock_jump_forwards", "external_maxmin", "merge_rename", "mixed_abscissa", "model_varies_between_events", "zero_force_psd_row", "nan_cells", "ties", "ties_quantised", "one_column_ext", "label_mismatch", "j_out_of_order", "interleaved_events", "view_drfunc",
     "cache_reuse", "cache_reuse_repeat_uf", "stale_extreme_rebuild", "shared_DR_Event", "envelope_multi_event", "split_merge", "calc_ext",
-    "deep_run", "case_repeats_previous", "rf_redesignated_same_matrices", "integer_table", "inf_cells", "mixed_depth_tree", "merge_of_merged_results", "force_trimming", "psd_all_solved_before_recovery", "psd_solved_ahead", "checkpoint_saved", "crash_restart_from_checkpoint", "crash_restart_from_scratch", "crash_lost_cases_redone", "summary_copy", "summary_copy_stripped",
+    "deep_run", "maxmin_supplied_twice", "case_repeats_previous", "rf_redesignated_same_matrices", "integer_table", "inf_cells", "mixed_depth_tree", "merge_of_merged_results", "force_trimming", "psd_all_solved_before_recovery", "psd_solved_ahead", "checkpoint_saved", "crash_restart_from_checkpoint", "crash_restart_from_scratch", "crash_lost_cases_redone", "summary_copy", "summary_copy_stripped",
 ]
